@@ -977,6 +977,16 @@ func c11NewWorld(t *testing.T, r *rand.Rand, round bool, histOps int) (*c11World
 			break // e.g. the reporter's stake fell below the minimum during the history
 		}
 		reports = append(reports, rep)
+		if r.Intn(2) == 0 && len(f.queries) > 1 {
+			// a second, tipped query reported by the same reporter in the same block: two aggregates then share the
+			// block of their deciding reports (the flag must find the right one among them)
+			qd2 := f.queries[r.Intn(len(f.queries))]
+			if string(qd2) != string(qd) && f.tip(w.payer, qd2, bi(1_000_000)) == "" {
+				if rep2, msg2 := f.report(h.reporter, qd2, c11Hex(int64(2000+r.Intn(3)))); msg2 == "" {
+					reports = append(reports, rep2)
+				}
+			}
+		}
 		if r.Intn(5) < 3 {
 			// the payer reports too (it may decide the aggregate); its own report is not disputed here:
 			// its stake sits with the validator outside the projected slice
